@@ -155,8 +155,8 @@ func slowConcChild(r models.Rule) bool {
 // && / || whose operands are atoms or (negated) brackets.
 func genBoolText(t *rapid.T, label string, want bool, depth int) string {
 	atom := func(w bool, l string) string {
-		ts := []string{"true", "tt", "!ff", "1 < 2", "tn == 1", "ts == \"s\"", "2.5 >= 2.5"}
-		fs := []string{"false", "ff", "!tt", "2 < 1", "tn != 1", "ts == \"q\"", "2.5 > 3"}
+		ts := []string{"true", "tt", "!ff", "1 < 2", "tn == 1", "ts == \"s\"", "2.5 >= 2.5", "TRUE", "True", "!FALSE"}
+		fs := []string{"false", "ff", "!tt", "2 < 1", "tn != 1", "ts == \"q\"", "2.5 > 3", "FALSE", "False", "!TRUE"}
 		if w {
 			return ts[uni(t, l, 0, len(ts)-1)]
 		}
@@ -448,6 +448,13 @@ func genRules(t *rapid.T, minN, maxN int, failP, tagP, retP int) []models.Rule {
 		if numericNames {
 			name = fmt.Sprintf("%d", 100+i)
 		}
+		switch {
+		case pct(t, fmt.Sprintf("padname%d", i), 8):
+			// blanks are part of a rule name: " r3" and "r3" are different names
+			name = []string{" " + name, name + " ", " " + name + " "}[uni(t, fmt.Sprintf("padkind%d", i), 0, 2)]
+		case pct(t, fmt.Sprintf("oddname%d", i), 6):
+			name = []string{name + ".x", "R" + name[1:], name + "-b", "规则" + name}[uni(t, fmt.Sprintf("oddkind%d", i), 0, 3)]
+		}
 		r := models.Rule{Name: name, Sal: genSal(t, fmt.Sprintf("sal%d", i))}
 		if pct(t, fmt.Sprintf("nosal%d", i), 10) {
 			r.NoSal, r.Sal = true, 0
@@ -597,6 +604,25 @@ func genNamesMin(t *rapid.T, rules []models.Rule, unknownP int, minK int) []stri
 	for nu < 3 && pct(t, fmt.Sprintf("unk%d", nu), unknownP) {
 		pos := rapid.IntRange(0, len(names)).Draw(t, fmt.Sprintf("unkpos%d", nu))
 		u := fmt.Sprintf("zz%d", nu)
+		if len(rules) > 0 && pct(t, fmt.Sprintf("unknear%d", nu), 40) {
+			// an unknown name that differs from an existing one only by blanks or case
+			base := rules[uni(t, fmt.Sprintf("unkbase%d", nu), 0, len(rules)-1)].Name
+			cand := []string{strings.TrimSpace(base), " " + base, base + " ", strings.ToUpper(base)}[uni(t, fmt.Sprintf("unkshape%d", nu), 0, 3)]
+			taken := false
+			for _, r := range rules {
+				if r.Name == cand {
+					taken = true
+				}
+			}
+			for _, n := range names {
+				if n == cand {
+					taken = true
+				}
+			}
+			if !taken {
+				u = cand
+			}
+		}
 		names = append(names[:pos], append([]string{u}, names[pos:]...)...)
 		nu++
 	}
